@@ -289,7 +289,7 @@ def subcircuit_cases(draw, tier):
     return {'nl': nl, 'route': draw(gen.routes(nl)),
             'roots': [draw(st.integers(0, 40)) for _ in range(draw(st.integers(1, 2)))],
             'grow': [draw(st.integers(0, 40)) for _ in range(draw(st.integers(0, 6)))],
-            'form': draw(st.sampled_from(['dnf', 'rm'])),
+            'form': draw(st.sampled_from(['dnf', 'rm', 'chain'])),
             'label_mode': draw(st.sampled_from(['fresh', 'fresh', 'same_boundary'])),
             'fault': draw(st.sampled_from(['none', 'none', 'none', 'unlisted_fanout', 'non_input_mapped',
                                            'missing_input', 'label_collision', 'overlap_keys'])),
@@ -330,7 +330,19 @@ def plan_replacement(nl, roots_idx, grow_idx, form, label_mode, prefix='rs_'):
         # constant cone: replacement needs no inputs
         rep = {'inputs': [], 'gates': [[f'{prefix}o{q}', 'ALWAYS_TRUE' if c & 1 else 'ALWAYS_FALSE', []] for q, c in enumerate(cols)],
                'outputs': [f'{prefix}o{q}' for q in range(len(cols))]}
-    elif form == 'dnf':
+    elif form == 'chain' and len(cols) >= 2:
+        # outputs feed each other inside the replacement: out_q = XOR(out_{q-1}, DNF(col_q ^ col_{q-1}))
+        deltas = [cols[0]] + [cols[q] ^ cols[q - 1] for q in range(1, len(cols))]
+        base = dnf_netlist(k, deltas)
+        ren = lambda x: prefix + x
+        gates = [[ren(l), t, [ren(o) for o in op]] for l, t, op in base['gates']]
+        outs = [ren(base['outputs'][0])]
+        for q in range(1, len(cols)):
+            lab = f'{prefix}c{q}'
+            gates.append([lab, 'XOR', [outs[-1], ren(base['outputs'][q])]])
+            outs.append(lab)
+        rep = {'inputs': [ren(x) for x in base['inputs']], 'gates': gates, 'outputs': outs}
+    elif form in ('dnf', 'chain'):
         base = dnf_netlist(k, cols)
         ren = lambda x: prefix + x
         rep = {'inputs': [ren(x) for x in base['inputs']], 'gates': [[ren(l), t, [ren(o) for o in op]] for l, t, op in base['gates']],
@@ -458,5 +470,5 @@ SPEC = {
                          'remove_gate': ['removed', 'has_users', 'was_output', 'was_input'],
                          'replace_subcircuit': ['replaced', 'extra_outputs', 'cone_output_is_circuit_output',
                                                 'fault:unlisted_fanout', 'fault:missing_input', 'fault:label_collision',
-                                                'form:rm', 'form:dnf', 'labels:same_boundary']},
+                                                'form:rm', 'form:dnf', 'form:chain', 'labels:same_boundary']},
 }
